@@ -35,7 +35,7 @@ TRUSTED_BASE = [
     "Lean compiler/runtime for the native model driver used by the correspondence check",
     "the hand-written model <-> /repo tie is the correspondence check of this run "
     "(harness generators, canonicalisation and Python-computed oracle tables are unverified)",
-    "translator tie (C04, C06, C07, C11, C13, C15, C16, C18): harness/vh/pytolean.py (Python fragment -> Lean) and "
+    "translator tie (C04, C06, C07, C09, C11, C13, C15, C16, C18): harness/vh/pytolean.py (Python fragment -> Lean) and "
     "SkModel/Gen/PyPrim.lean (meaning of file seek/read, bytes.find/rfind, Python integer "
     "operators) are trusted for the bridge theorems; log calls are dropped by the translator "
     "(side effects of evaluating a log argument are outside the fragment)",
